@@ -46,7 +46,7 @@ func H04_persist() {
 	seg, _, err := z.newWithChunkMode(docs, mode)
 	vAssert(err == nil, "build")
 	sb := seg.(*SegmentBase)
-	path := "/v/seg.zap"
+	path := vP("seg.zap")
 	vAssert(sb.Persist(path) == nil, "persist")
 	vAssert(vFSExists(path), "file-exists")
 	vAssert(vFSOpenHandles() == 0, "persist-closed")
